@@ -4857,11 +4857,14 @@ namespace jsoncons {
                 case json_storage_kind::object:
                 {
                     visitor.begin_object(size(), tag(), context, ec);
+                    if (JSONCONS_UNLIKELY(ec)) {return;}
                     const object& o = cast<object_storage>().value();
                     for (auto it = o.begin(); it != o.end(); ++it)
                     {
                         visitor.key(string_view_type(((*it).key()).data(),(*it).key().length()), context, ec);
+                        if (JSONCONS_UNLIKELY(ec)) {return;}
                         (*it).value().dump_noflush(visitor, ec);
+                        if (JSONCONS_UNLIKELY(ec)) {return;}
                     }
                     visitor.end_object(context, ec);
                     break;
@@ -4869,10 +4872,12 @@ namespace jsoncons {
                 case json_storage_kind::array:
                 {
                     visitor.begin_array(size(), tag(), context, ec);
+                    if (JSONCONS_UNLIKELY(ec)) {return;}
                     const array& o = cast<array_storage>().value();
                     for (const_array_iterator it = o.begin(); it != o.end(); ++it)
                     {
                         (*it).dump_noflush(visitor, ec);
+                        if (JSONCONS_UNLIKELY(ec)) {return;}
                     }
                     visitor.end_array(context, ec);
                     break;
@@ -4932,10 +4937,18 @@ namespace jsoncons {
                 case json_storage_kind::object:
                 {
                     visitor.begin_object(size(), tag(), context, ec);
+                    if (JSONCONS_UNLIKELY(ec))
+                    {
+                        return write_result{unexpect, ec};
+                    }
                     const object& o = cast<object_storage>().value();
                     for (auto it = o.begin(); it != o.end(); ++it)
                     {
                         visitor.key(string_view_type(((*it).key()).data(),(*it).key().length()), context, ec);
+                        if (JSONCONS_UNLIKELY(ec))
+                        {
+                            return write_result{unexpect, ec};
+                        }
                         (*it).value().dump_noflush(visitor, ec);
                         if (JSONCONS_UNLIKELY(ec))
                         {
@@ -4952,6 +4965,10 @@ namespace jsoncons {
                 case json_storage_kind::array:
                 {
                     visitor.begin_array(size(), tag(), context, ec);
+                    if (JSONCONS_UNLIKELY(ec))
+                    {
+                        return write_result{unexpect, ec};
+                    }
                     const array& o = cast<array_storage>().value();
                     for (const_array_iterator it = o.begin(); it != o.end(); ++it)
                     {
